@@ -21,7 +21,8 @@ EXPLANATION = (
     'is the result list (append only), the category table (append-only, id = position) and the C++ rule cache, whose two '
     'lambdas fill an entry only when absent and never erase.  Equality of results across histories when scores tie (heap '
     'order) and the behaviour of multiprocessing itself are not decided.'
-    ' Third round: no working object of parse_sentence has static / thread storage (locals:automatic).')
+    ' Third round: no working object of parse_sentence has static / thread storage (locals:automatic).'
+    ' Fifth round: the rule cache never shrinks during a search (lambdas included).')
 TRUSTED = ['CPython ast', 'clang-14 front end', 'sa/pyx.py normaliser', 'multiprocessing.Pool.apply_async/.get semantics']
 
 REL = 'depccg/parsing.py'
